@@ -45,10 +45,14 @@ func (e *Engine) RunHarness(spec *HarnessSpec, workers int, deadline time.Time) 
 }
 
 func (e *Engine) runHarnessWith(spec *HarnessSpec, workers int, deadline time.Time, pinned Model) *HarnessRun {
+	return e.runHarnessFrom(spec, workers, deadline, pinned, nil)
+}
+
+func (e *Engine) runHarnessFrom(spec *HarnessSpec, workers int, deadline time.Time, pinned Model, prefix []Decision) *HarnessRun {
 	h := &HarnessRun{Name: spec.Name, Fn: spec.Fn, IntMode: spec.IntMode, Ends: map[string]int{}, Unsupported: map[string]int{},
 		Covers: map[string]int{}, Stubs: map[string]bool{}, Funcs: map[string]bool{}, MaxPaths: spec.MaxPaths, Kind: spec.Kind}
 	h.cond = sync.NewCond(&h.mu)
-	h.work = []workItem{{prefix: nil}}
+	h.work = []workItem{{prefix: prefix}}
 	var wg sync.WaitGroup
 	if workers < 1 {
 		workers = 1
@@ -80,6 +84,7 @@ func (e *Engine) runHarnessWith(spec *HarnessSpec, workers int, deadline time.Ti
 			defer sol.Close()
 			ex := &Exec{eng: e, tt: tt, sol: sol, intMode: spec.IntMode, h: h, fnsHit: map[*ssa.Function]bool{}, stubsHit: map[string]bool{}}
 			ex.replayModel = pinned
+			ex.pinQuiet = pinned != nil && prefix != nil
 			for {
 				item, ok := h.popWork()
 				if !ok {
@@ -131,6 +136,7 @@ func (ex *Exec) runPath(spec *HarnessSpec, prefix []Decision) {
 	ex.resetPath(prefix)
 	ex.preemptBound = spec.Preempt
 	ex.noIfConv = spec.Opts["ifconv"] == "off"
+	ex.schedAll = spec.Opts["sched"] == "all"
 	ex.specMode = false
 	ex.inModel = 0
 	ex.autoTime = true
